@@ -32,6 +32,8 @@ EXTENDS Integers, Sequences, FiniteSets, TLC
 CONSTANTS Streams, Classes, TsClasses,
           Cols, ClassKinds,    \* [Classes -> [Cols -> Kinds]]
           ClassX, ClassT,      \* [Classes -> Seq(Int)] (<<>> = absent, <<n>>), [Classes -> Seq(Words)] (<<>> = absent)
+          ClassM,              \* [Classes -> [f: BOOLEAN, v: Int]]  the measure field m every event carries: v = its
+                               \*   value in HALVES (so 2.5 is 5), f = written as a JSON float (v odd) or as an integer
           LowerOf,             \* [Words -> Words]  (lower-casing of a word)
           QNums, QWords,       \* literals of the query family
           MaxEvents, MaxBatch, MaxFlush, MaxRotate, MaxRestart, MaxPromote,
@@ -219,6 +221,48 @@ EngineAnswer(s, q, useCmi, usePq) ==
            <<k, j>> \in {p \in (DOMAIN segs[s]) \X (1..MaxEvents) : p[2] \in DOMAIN segs[s][p[1]].blocks}}
 
 -----------------------------------------------------------------------------
+(* ---- pre-aggregated segment statistics (.sst) vs aggregation of the raw records ----
+   Every record updates the running statistics of its column at ingest (addSegStatsNums ->
+   processStats, packer.go); AppendWipToSegfile writes them per segment (FlushSegStats) and a
+   match-all `stats` over a fully enclosed segment is answered from them (canUseSSTForStats)
+   instead of reading the records.  The running sum keeps an integer and a float accumulator and
+   a type tag - the case analysis of processStats, transcribed:
+       incoming float, stored float : f += v          incoming float, stored int : f = i + v, tag = float
+       incoming int,   stored float : f += v          incoming int,   stored int : i += v
+   The statistics a segment holds are those of its records in ingest order. *)
+MOf(id) == ClassM[EvIn(events, id).cls]
+StatInit == [cnt |-> 0, nt |-> "int", i |-> 0, f |-> 0, mn |-> 0, mx |-> 0]
+AddStat(S, m) ==
+  LET sum == IF m.f THEN (IF S.nt = "flt" THEN [nt |-> "flt", i |-> S.i, f |-> S.f + m.v]
+                          ELSE [nt |-> "flt", i |-> S.i, f |-> S.i + m.v])
+             ELSE (IF S.nt = "flt" THEN [nt |-> "flt", i |-> S.i, f |-> S.f + m.v]
+                   ELSE [nt |-> "int", i |-> S.i + m.v, f |-> S.f])
+  IN [cnt |-> S.cnt + 1, nt |-> sum.nt, i |-> sum.i, f |-> sum.f,
+      mn |-> IF S.cnt = 0 \/ m.v < S.mn THEN m.v ELSE S.mn,
+      mx |-> IF S.cnt = 0 \/ m.v > S.mx THEN m.v ELSE S.mx]
+StatValue(S) == [cnt |-> S.cnt, sum |-> IF S.nt = "flt" THEN S.f ELSE S.i, mn |-> S.mn, mx |-> S.mx]
+SegIdSeq(sg) == LET inner[j \in 0..Len(sg.blocks)] == IF j = 0 THEN <<>> ELSE inner[j - 1] \o sg.blocks[j].ids
+                IN inner[Len(sg.blocks)]
+FoldStat(ids) == LET acc[n \in 0..Len(ids)] == IF n = 0 THEN StatInit ELSE AddStat(acc[n - 1], MOf(ids[n]))
+                 IN acc[Len(ids)]
+SstOf(sg) == StatValue(FoldStat(SegIdSeq(sg)))             \* what the segment's .sst holds
+(* aggregation of the raw records: plain arithmetic over the values, no accumulator types *)
+RawStat(ids) ==
+  LET sm[n \in 0..Len(ids)] == IF n = 0 THEN 0 ELSE sm[n - 1] + MOf(ids[n]).v
+      vals == {MOf(ids[n]).v : n \in DOMAIN ids}
+  IN [cnt |-> Len(ids), sum |-> sm[Len(ids)],
+      mn |-> IF ids = <<>> THEN 0 ELSE MinOf(vals), mx |-> IF ids = <<>> THEN 0 ELSE MaxOf(vals)]
+MergeStat(a, b) == IF a.cnt = 0 THEN b ELSE IF b.cnt = 0 THEN a
+                   ELSE [cnt |-> a.cnt + b.cnt, sum |-> a.sum + b.sum,
+                         mn |-> IF a.mn < b.mn THEN a.mn ELSE b.mn, mx |-> IF a.mx > b.mx THEN a.mx ELSE b.mx]
+EngineStats(s, useSst) ==
+  LET acc[k \in 0..Len(segs[s])] ==
+        IF k = 0 THEN RawStat(<<>>)
+        ELSE MergeStat(acc[k - 1], IF useSst[k] THEN SstOf(segs[s][k]) ELSE RawStat(SegIdSeq(segs[s][k])))
+  IN acc[Len(segs[s])]
+RefStats(s) == RawStat(FlushedSeq(s))
+
+-----------------------------------------------------------------------------
 (* ---- properties ---- *)
 (* C01: the match-all answer is exactly the flushed events, each once; nothing invented;
    unflushed events are not required (they may already be visible: timers / auto cut) *)
@@ -237,6 +281,10 @@ LayoutIrrelevant ==
   \A s \in Streams : \A q \in Queries :
     \A useCmi \in [DOMAIN segs[s] -> BOOLEAN] : \A usePq \in [DOMAIN segs[s] -> BOOLEAN] :
        EngineAnswer(s, q, useCmi, usePq) = RefAnswer(s, q)
+(* C03: count / sum / min / max of the measure are the same whether each segment is answered from its
+   pre-aggregated statistics or from its records, for every layout and ingest order *)
+StatsIrrelevant ==
+  \A s \in Streams : \A useSst \in [DOMAIN segs[s] -> BOOLEAN] : EngineStats(s, useSst) = RefStats(s)
 PruneSound == \A s \in Streams : \A k \in DOMAIN segs[s] : \A j \in DOMAIN segs[s][k].blocks :
                  PruneSoundBlock(segs[s][k].blocks[j])
 
